@@ -10,13 +10,14 @@ Record lparams := {
   close_cleanup_in_finally : bool;      (* finally: self._cleanup(_anyway=True) *)
   close_swallows_eof : bool;            (* except EOFError: pass *)
   cleanup_hook_once_guard : bool;       (* _cleanup runs the hook through self._local_root, which it then sets to None *)
+  cleanup_clears_in_finally : bool;     (* _cleanup: try: on_disconnect(self) finally: <clear the tables> - a raising hook cannot keep them *)
   serve_read_eof_closes : bool;         (* serve(): except EOFError: self.close(); raise   around poll/recv *)
   serve_dispatch_eof_closes : bool;     (* serve(): EOFError escaping _dispatch also closes *)
   serve_all_finally_closes : bool       (* serve_all(): finally: self.close() *)
 }.
 Definition std_params : lparams :=
   {| close_checks_closed_first := true; close_sets_closed_before_io := true; close_cleanup_in_finally := true;
-     close_swallows_eof := true; cleanup_hook_once_guard := true; serve_read_eof_closes := true;
+     close_swallows_eof := true; cleanup_hook_once_guard := true; cleanup_clears_in_finally := true; serve_read_eof_closes := true;
      serve_dispatch_eof_closes := true; serve_all_finally_closes := true |}.
 
 Record side := {
@@ -37,16 +38,20 @@ Inductive entry :=
 
 Inductive raised := RNone | REof | RAttr | ROther.
 
-(* _cleanup(_anyway): returns the new side and whether AttributeError escaped (second run on a cleaned-up side) *)
-Definition cleanup (P : lparams) (anyway : bool) (s : side) : side * raised :=
+(* _cleanup(_anyway): returns the new side and what escaped: AttributeError on a second run over a cleaned-up side; the hook's own
+   exception when the service's on_disconnect raises ([hr], a property of the service, so one bool per history) - and then, unless
+   the clearing sits in a finally, the tables and the root are still there although the side reports closed *)
+Definition cleanup (P : lparams) (hr : bool) (anyway : bool) (s : side) : side * raised :=
   if closed s && negb anyway then (s, RNone) else
   if has_root s then
-    ({| closed := true; hooks := S (hooks s); has_root := false; chan_open := false |}, RNone)
+    if hr && negb (cleanup_clears_in_finally P)
+    then ({| closed := true; hooks := S (hooks s); has_root := true; chan_open := false |}, ROther)
+    else ({| closed := true; hooks := S (hooks s); has_root := false; chan_open := false |}, if hr then ROther else RNone)
   else if cleanup_hook_once_guard P then
     ({| closed := true; hooks := hooks s; has_root := false; chan_open := false |}, RAttr)
-  else ({| closed := true; hooks := S (hooks s); has_root := false; chan_open := false |}, RNone).
+  else ({| closed := true; hooks := S (hooks s); has_root := false; chan_open := false |}, if hr then ROther else RNone).
 
-Definition do_close (P : lparams) (w : wres) (s : side) : side * raised :=
+Definition do_close (P : lparams) (hr : bool) (w : wres) (s : side) : side * raised :=
   if close_checks_closed_first P && closed s then (s, RNone) else
   let s1 := if close_sets_closed_before_io P
             then {| closed := true; hooks := hooks s; has_root := has_root s; chan_open := chan_open s |} else s in
@@ -54,33 +59,33 @@ Definition do_close (P : lparams) (w : wres) (s : side) : side * raised :=
   let w' := if chan_open s1 then w else WEof in
   let escapes := match w' with WOk => RNone | WEof => if close_swallows_eof P then RNone else REof | WErr => ROther end in
   if close_cleanup_in_finally P then
-    let '(s2, r) := cleanup P true s1 in (s2, match r with RNone => escapes | r' => r' end)
+    let '(s2, r) := cleanup P hr true s1 in (s2, match r with RNone => escapes | r' => r' end)
   else match escapes with
-       | RNone => cleanup P true s1
+       | RNone => cleanup P hr true s1
        | r => (s1, r)
        end.
 
-Definition step (P : lparams) (e : entry) (s : side) : side * raised :=
+Definition step (P : lparams) (hr : bool) (e : entry) (s : side) : side * raised :=
   match e with
-  | EClose w => do_close P w s
-  | EHandleClose => if has_root s then cleanup P true s else (s, RAttr)   (* after a cleanup the handler table is gone *)
+  | EClose w => do_close P hr w s
+  | EHandleClose => if has_root s then cleanup P hr true s else (s, RAttr)   (* after a cleanup the handler table is gone *)
   | EServeReadEof c =>
       let s0 := {| closed := closed s; hooks := hooks s; has_root := has_root s; chan_open := false |} in   (* the stream closed itself *)
-      let '(s1, _) := if serve_read_eof_closes P then do_close P WEof s0 else (s0, RNone) in
+      let '(s1, _) := if serve_read_eof_closes P then do_close P hr WEof s0 else (s0, RNone) in
       match c with
       | InWait => (s1, REof)
-      | InServeAll => if serve_all_finally_closes P then (fst (do_close P WEof s1), RNone) else (s1, RNone)
+      | InServeAll => if serve_all_finally_closes P then (fst (do_close P hr WEof s1), RNone) else (s1, RNone)
       end
   | EDispatchEof c =>
       let s0 := {| closed := closed s; hooks := hooks s; has_root := has_root s; chan_open := false |} in
-      let '(s1, _) := if serve_dispatch_eof_closes P then do_close P WEof s0 else (s0, RNone) in
+      let '(s1, _) := if serve_dispatch_eof_closes P then do_close P hr WEof s0 else (s0, RNone) in
       match c with
       | InWait => (s1, REof)
-      | InServeAll => if serve_all_finally_closes P then (fst (do_close P WEof s1), RNone) else (s1, RNone)
+      | InServeAll => if serve_all_finally_closes P then (fst (do_close P hr WEof s1), RNone) else (s1, RNone)
       end
   end.
 
-Definition runs (P : lparams) (es : list entry) (s : side) : side := fold_left (fun s e => fst (step P e s)) es s.
+Definition runs (P : lparams) (hr : bool) (es : list entry) (s : side) : side := fold_left (fun s e => fst (step P hr e s)) es s.
 
 (* what the property demands of a side once it has closed, been told to close, or met the failure while serving *)
 Definition ended_clean (s : side) : Prop := closed s = true /\ hooks s = 1 /\ has_root s = false /\ chan_open s = false.
@@ -88,9 +93,9 @@ Definition ended_clean (s : side) : Prop := closed s = true /\ hooks s = 1 /\ ha
 (* ---- harness interface ---- *)
 Definition params_of_sx (x : sx) : lparams :=
   match x with
-  | SL [a; b; c; d; e; f; g; h] =>
+  | SL [a; b; c; d; e; k; f; g; h] =>
       {| close_checks_closed_first := sx_bool a; close_sets_closed_before_io := sx_bool b; close_cleanup_in_finally := sx_bool c;
-         close_swallows_eof := sx_bool d; cleanup_hook_once_guard := sx_bool e; serve_read_eof_closes := sx_bool f;
+         close_swallows_eof := sx_bool d; cleanup_hook_once_guard := sx_bool e; cleanup_clears_in_finally := sx_bool k; serve_read_eof_closes := sx_bool f;
          serve_dispatch_eof_closes := sx_bool g; serve_all_finally_closes := sx_bool h |}
   | _ => std_params
   end.
@@ -105,6 +110,6 @@ Definition entry_of_sx (x : sx) : entry :=
 Definition sx_side (s : side) : sx := SL [sbool (closed s); snat (hooks s); sbool (has_root s); sbool (chan_open s)].
 Definition run_lifecycle (x : sx) : sx :=
   match x with
-  | SL [p; SL es] => sx_side (runs (params_of_sx p) (map entry_of_sx es) fresh)
+  | SL [p; hr; SL es] => sx_side (runs (params_of_sx p) (sx_bool hr) (map entry_of_sx es) fresh)
   | _ => bad_input
   end.
